@@ -44,7 +44,7 @@ TStart == Step(
   /\ IF FundsError(Ev.req)
        THEN pc' = "done" /\ res' = [ok |-> FALSE, gas |-> 0] /\ cap' = 0
        ELSE /\ cap' = Cap(Ev.req)
-            /\ pc' = IF Ev.plain THEN "transfer" ELSE "cap"      \* action Start composed
+            /\ pc' = IF Ev.plain /\ Cap(Ev.req) >= TxGas THEN "transfer" ELSE "cap"      \* action Start composed
             /\ res' = [ok |-> FALSE, gas |-> 0])
 
 TTransfer == Step(Ev.op = "probe" /\ pc = "transfer" /\ Ev.gas = TxGas
@@ -87,7 +87,7 @@ TraceNext == TStart \/ TTransfer \/ TAtCap \/ TSearch \/ TResult \/ TRecheck
 TraceSpec == TraceInit /\ [][TraceNext]_tvars
 
 (* invariants evaluated after every real step *)
-ProbesWithinCapT == \A i \in 1..Len(probes) : probes[i] <= cap \/ (probes[i] = TxGas /\ env.plain /\ i = 1)
+ProbesWithinCapT == \A i \in 1..Len(probes) : probes[i] <= cap
 NoRepeatT == \A i, j \in 1..Len(probes) : i < j /\ probes[i] = probes[j] => (probes[i] = TxGas /\ env.plain /\ i = 1)
 IntervalT == pc \in {"optimistic", "bisect"} => lo < hi /\ hi <= cap
 
